@@ -198,5 +198,15 @@ func init() {
 		Rule: "each run = cluster alpha (endpoints e0,e1 behind verb-distinguished policies) and bystander cluster beta; 6-12 requests in drawn phases of their life (parked in TokenReview before the pick, held at the upstream before headers, mid-stream of a chunked long-running response with drawn progress), then one drawn removal (delete the cluster, remove e0, replace e0 by a new endpoint); afterwards: victims must end at the client within 2 simulated seconds without further stimulus, the removed endpoint's server must see the cancellation, new requests get 503 / never reach the removed endpoint, bystander streams receive their next chunk, probing of the removed endpoint stops and of the others continues; distinct = distinct trace hash; non-trivial = at least one request was in flight to what was removed",
 		Real: gwReal, Stub: gwStub, Assume: append([]string{"'promptly' is read as 2 simulated seconds; 'probing stops' as no probe later than one interval (5 s) plus 1.5 s after the removal"}, gwAssume...),
 	})
+	reg(&Check{
+		ID:    "C12",
+		Title: "Authentication and authorization decisions never cross clusters",
+		Batches: []Batch{
+			{World: "gw", Profile: "c12-hosts", Quick: 120, Thor: 6000, PerProc: 1},
+			{World: "gw", Profile: "c12-alias", Quick: 80, Thor: 4000, PerProc: 1},
+		},
+		Rule: "each run = 2-3 clusters whose stubs map the same tokens to different users and answer the same impersonation SAR differently, drawn cache TTLs (0 / 2 s / default), 15-55 steps of: request to a drawn host (names in mixed case, aliases) with a drawn token and optional impersonation, time gaps around the TTLs (0.5 s - 11 min), changes of a cluster's own answers (token remapped/revoked, SAR flipped), a cluster made unreachable and back, delete and re-create; profile c12-alias also moves a server name from one live cluster to another; the oracle attributes every forwarded identity and every review to the cluster the host resolves to; distinct = distinct trace hash; non-trivial = at least two forwarded requests with two or more clusters",
+		Real: gwReal, Stub: gwStub, Assume: append([]string{"a cached answer may be as old as the longest configured TTL plus 50 ms", "the alias-move profile goes beyond the literal quantifier (hosts are fixed there) but not beyond the statement"}, gwAssume...),
+	})
 	reg(&Check{ID: "SMOKE", Title: "debug", Batches: []Batch{{World: "gw", Profile: "smoke", Quick: 1, Thor: 1, PerProc: 1}}})
 }
